@@ -44,4 +44,11 @@ CHECKS["C04"] = dict(
     note="Error text is not compared; latitude for documented wazero behaviour (out-of-bounds element segment ignored; table import minimum compared with the declared minimum) is explicit in the spec (may-field). Graphs have one provider and up to two consumers.",
 )
 
+CHECKS["C11"] = dict(
+    technique="TLA+ model of N independent lone-instance machines (Isolation.tla) checked by TLC (NonInterference, FreshStart); enumerated and simulated interleavings incl. close and re-instantiation replayed on real instances of one compiled module on both engines, every instance's full state compared after each step",
+    text="The specification is N copies of the lone-instance machine (memory cells in two pages, growth, global, table slots, funcref global, passive data/element segments and their drop flags, close, fresh instantiation); TLC checks that a step of one instance never changes another and enumerates every interleaving of 3 steps over 2-3 instances plus seeded walks of 8-12 steps; the driver replays them on instances of ONE compiled module under three settings (one runtime; capacity-from-max, which exposes recycled or pre-allocated buffers; two runtimes sharing a compilation cache) on both engines and after every step compares each live instance's global, memory size and cells, and every table slot's call target with what that instance would have if it were alone.",
+    design_ref="§4 C11",
+    note="WASI descriptor tables and standard streams are not part of this model (they are exercised by the WASI checks); instances come from one module shape.",
+)
+
 NOT_YET = "check not built yet in this round (work in progress; see DESIGN.md §4)"
